@@ -30,6 +30,7 @@ type ConfOpts struct {
 	TightQuota   bool // small maxima (so they bite)
 	FifoOnly     bool // leaf sort policy always fifo (needed by gang apps)
 	QuotaPreempt bool // set quota preemption delays and the partition flag
+	WideTrees    bool // 3-5 children per parent (sorting needs several candidates)
 }
 
 // MarshalConf renders a scheduler configuration as YAML with the repository's own YAML library.
@@ -376,6 +377,9 @@ func (g *confGen) genQueue(name, parentPath string, depth int, parentEff Res, pa
 			}
 		}
 		n := rapid.IntRange(1, 3).Draw(g.t, "children-"+path)
+		if g.o.WideTrees {
+			n = rapid.IntRange(3, 5).Draw(g.t, "children-wide-"+path)
+		}
 		used := map[string]bool{}
 		for i := 0; i < n; i++ {
 			cn := rapid.SampledFrom(queueNamePool).Draw(g.t, fmt.Sprintf("child-name-%d-%s", i, path))
@@ -465,6 +469,9 @@ func GenConf(t *rapid.T, o ConfOpts) *configs.SchedulerConfig {
 	root.Limits, lim = g.genLimits("root", nil, root.MaxApplications, true, lim)
 	root.Properties = g.genProps("root", false)
 	n := rapid.IntRange(1, 3).Draw(t, "root-children")
+	if o.WideTrees {
+		n = rapid.IntRange(3, 5).Draw(t, "root-children-wide")
+	}
 	used := map[string]bool{}
 	for i := 0; i < n; i++ {
 		cn := rapid.SampledFrom(queueNamePool).Draw(t, fmt.Sprintf("root-child-%d", i))
